@@ -92,6 +92,8 @@ type metricIn struct {
 
 type flatIn struct {
 	Operands []Ints   `json:"operands"` // [n, d] each, vector(x)
+	// Lits: operand i is written as a bare number (a scalar literal) instead of vector(x); the value of the chain is the same
+	Lits []bool `json:"lits"`
 	Ops      []string `json:"ops"`
 	Open     int      `json:"open"`  // 0: no parentheses; else parentheses around operands Open..Close
 	Close    int      `json:"close"`
@@ -180,7 +182,11 @@ func (f *flatIn) text() string {
 		if f.Open == i+1 {
 			sb.WriteString("(")
 		}
-		sb.WriteString("vector(" + decOf(o) + ")")
+		if i < len(f.Lits) && f.Lits[i] {
+			sb.WriteString(decOf(o))
+		} else {
+			sb.WriteString("vector(" + decOf(o) + ")")
+		}
 		if f.Close == i+1 {
 			sb.WriteString(")")
 		}
@@ -371,6 +377,27 @@ func genMetric(r *rand.Rand, mode string) metricIn {
 				f.Open, f.Close = a, b
 			}
 		}
+		f.Lits = make([]bool, n)
+		if r.Intn(3) == 0 {
+			// scalar literals among the operands (arithmetic only: set operators take no scalars; the first operand stays a
+			// vector so that the result is one): parentheses must survive whatever the evaluation does with literal operands
+			arith := []string{"add", "sub", "mul", "div", "mod", "pow", "mul", "mod"}
+			big := [][]int{{1, 1}, {2, 1}, {3, 1}, {4, 1}, {6, 1}, {5, 1}, {0, 1}, {1, 2}}
+			for i := range f.Ops {
+				f.Ops[i] = arith[r.Intn(len(arith))]
+			}
+			if n >= 3 && r.Intn(2) == 0 {
+				// (v op c1) op c2 ...: two scalar operations in a row, the first one parenthesised
+				f.Open, f.Close = 1, 2
+			}
+			for i := range f.Operands {
+				f.Operands[i] = big[r.Intn(len(big))]
+				// (never two literals as operands of one operator: scalar-with-scalar sub-expressions are not supported by the engine)
+				// unless a parenthesis stands between them: (v * 6) % 4
+				sep := f.Close == i || f.Open == i+1
+				f.Lits[i] = i > 0 && (!f.Lits[i-1] || sep) && r.Intn(3) != 0
+			}
+		}
 		in.Flat = f
 		in.Recs = []MemRec{}
 		in.Expr = *litExpr([]int{0, 1})
@@ -465,6 +492,14 @@ func (famMetric) Gen(r *rand.Rand, n int, opt map[string]string) []any {
 // wide-window inputs: every record lies inside every window, so C11/C12 cases stay away from window edges (C09's subject)
 func wideRecs(r *rand.Rand, withV bool) []MemRec {
 	n := 1 + r.Intn(10)
+	// one case in three has only negative values (a maximum of negatives is negative, a minimum of positives positive)
+	vpool := []string{"1", "2", "3", "0.5"}
+	switch r.Intn(4) {
+	case 0:
+		vpool = []string{"-1", "-2", "-3", "-0.5"}
+	case 1:
+		vpool = []string{"-1", "2", "-3", "0.5", "0"}
+	}
 	var recs []MemRec
 	for i := 0; i < n; i++ {
 		rec := MemRec{ID: i + 1, TS: []int{mBase + 1 + i, 0}, Line: B("m"), Doc: [][2][]int{}}
@@ -473,7 +508,7 @@ func wideRecs(r *rand.Rand, withV bool) []MemRec {
 			rec.Attrs = append(rec.Attrs, [2][]int{B("zone"), B(pick(r, []string{"x", "y"}))})
 		}
 		if withV {
-			rec.Attrs = append(rec.Attrs, [2][]int{B("v"), B(pick(r, []string{"1", "2", "3", "0.5"}))})
+			rec.Attrs = append(rec.Attrs, [2][]int{B("v"), B(pick(r, vpool))})
 		}
 		recs = append(recs, rec)
 	}
